@@ -469,7 +469,7 @@ Section Agree.
       assert (Hnl : existsb is_lam_arg a2 = false).
       { eapply no_lam_after_fill; [| |exact Hfill].
         - eapply nl_not_lambda; [eapply wts_not_lambda; exact Hwa | exact Ha].
-        - apply zip_kw_Forall. eapply nl_not_lambda; [eapply wts_not_lambda; exact Hwk | exact Hk]. }
+        - apply (zip_kw_Forall (fun x => is_lam_arg x = false)). eapply nl_not_lambda; [eapply wts_not_lambda; exact Hwk | exact Hk]. }
       destruct (pmc_static v' tv a aargs kwn akwv tv m a2 k2 t) as (out & ev3 & Hp).
       { unfold candidates. eapply resolve_static_first; eauto. }
       rewrite Hp. cbn [bind]. eauto.
@@ -487,7 +487,7 @@ Section Agree.
       assert (Hnl : existsb is_lam_arg a2 = false).
       { eapply no_lam_after_fill; [| |exact Hfill].
         - eapply nl_not_lambda; [eapply wts_not_lambda; exact Hwa | exact Ha].
-        - apply zip_kw_Forall. eapply nl_not_lambda; [eapply wts_not_lambda; exact Hwk | exact Hk]. }
+        - apply (zip_kw_Forall (fun x => is_lam_arg x = false)). eapply nl_not_lambda; [eapply wts_not_lambda; exact Hwk | exact Hk]. }
       destruct (pmc_static v' tv a aargs kwn akwv (TCls c [unwrap_iterable (w_ct W) tv]) m a2 k2 t) as (out & ev3 & Hp).
       { rewrite candidates_iterable by exact Hit. rewrite resolve_skip by exact Hnone.
         eapply resolve_first_coll_static; eauto. }
@@ -506,12 +506,119 @@ Section Agree.
         destruct (fill_go mk_const_arg (m_params m) 0 [x] []) as [[a2 k2]|pn] eqn:Ef; [|discriminate].
         inversion Hm as [[Ha2 Hk2]].
         destruct k2; [|discriminate]. destruct a2 as [|y [|z r]]; try discriminate.
-        destruct (fill_go_Forall mk_const_arg (fun y => y = x \/ snd y = NNotLambda) (m_params m)
-                    (fun c => or_intror eq_refl) 0 [x] [] [y] [] (Forall_cons _ (or_introl eq_refl) (Forall_nil _)) (Forall_nil _) Ef) as [Hy _].
-        inversion Hy as [|? ? [->|Hsn] _]; [reflexivity|]. exfalso.
-        cbn in Ha2. inversion Ha2 as [Hfy]. destruct y as [ye yn]. cbn in *. subst.
-        (* a default constant is not a lambda *)
-        admit. }
-      admit.
-  Admitted.
+        destruct (fill_go_Forall mk_const_arg (fun y => y = x \/ exists c0, y = mk_const_arg c0) (m_params m)
+                    (fun c0 => or_intror (ex_intro _ c0 eq_refl)) 0 [x] [] [y] []
+                    (Forall_cons _ (or_introl eq_refl) (Forall_nil _)) (Forall_nil _) Ef) as [Hy _].
+        pose proof (Forall_inv Hy) as Hy0. destruct Hy0 as [->|[c0 ->]]; [reflexivity|].
+        unfold mk_const_arg, aexpr in Ha2. cbn in Ha2. discriminate. }
+      set (aargs := [x]).
+      assert (Hres' : resolve mk_const_arg is_lam_arg (w_ct W) (candidates W tv) a aargs (zip_kw [] []) PNone
+                      = Ok (PStream (TCls c [elem]) m [x] [] elem)).
+      { rewrite candidates_iterable by exact Hit. rewrite resolve_skip by exact Hnone.
+        eapply resolve_first_coll_stream; eauto. }
+      assert (Hout : out_of W ((p, elem) :: G) b = b') by (exact (proj1 (out_of_fx _ _ _ _ _ _ _ Hb))).
+      rewrite Hout in Hchk.
+      assert (Hfin : finish_op W (m_op m) elem p (b', tb, evb) = Ok (Lambda [p] b', t, evb)).
+      { unfold finish_op. rewrite Hchk. cbn [negb].
+        destruct Hop as [Ho|[Ho|Ho]]; rewrite Ho in *; cbn in Hres.
+        - inversion Hres; reflexivity.
+        - inversion Hres; reflexivity.
+        - destruct tb; try discriminate. inversion Hres; reflexivity. }
+      assert (Hp : exists out ev3, process_method_call W v' tv a aargs [] [] = Ok (out, TIter t, ev3)).
+      { unfold process_method_call. rewrite method_loop_resolve, Hres'. cbn [bind exec].
+        unfold follow_on_stream_obj. rewrite Hcoll.
+        assert (Hx : snd x = NLam p (fun item => bind (follow_x W ((p, item) :: G) b) (fun '(b', t, _, ev) => Ok (b', t, ev)))) by reflexivity.
+        assert (Hop' : match m_op m with OpSelect | OpSelectMany | OpWhere => True | _ => False end)
+          by (destruct Hop as [Ho|[Ho|Ho]]; rewrite Ho; exact I).
+        destruct (m_op m) eqn:Eop; try contradiction; rewrite Hx; cbn beta; rewrite Hb; cbn [bind];
+          rewrite Hfin; cbn [bind mr_obj mr_node mr_ty mr_ev];
+          destruct (method_callbacks W (TCls c [elem]) m _) as [site evs]; eauto. }
+      destruct Hp as (out & ev3 & Hp). unfold aargs in Hp.
+      match goal with |- context [bind ?pm _] => replace pm with (Ok (A:=expr * ty * list event) (out, TIter t, ev3)) by (symmetry; exact Hp) end.
+      cbn [bind]. eauto.
+    - (* lists *) intros G. exists [], []. reflexivity.
+    - intros G e es t ts _ (e' & aux & ev & He) _ (es' & evs & Hes).
+      rewrite fl_cons, He. cbn [bind]. rewrite Hes. cbn [bind]. eauto.
+  Qed.
+
 End Agree.
+
+(* ---------- exported statements ---------- *)
+
+Theorem follow_types_agree_x W G e t :
+  wt W G e t -> exists e' ev, follow W G e = Ok (e', t, ev).
+Proof.
+  intros H. destruct (proj1 (wt_sound W) G e t H) as (e' & aux & ev & Hx).
+  exists e', ev. unfold follow. rewrite Hx. reflexivity.
+Qed.
+
+(* the item type of the stream a stream operator returns, for a well-typed lambda *)
+Theorem stream_types_agree_x W op G0 item p b tb t :
+  wt W ((p, item) :: G0) b tb ->
+  check_ast (Lambda [p] (out_of W ((p, item) :: G0) b)) = true ->
+  op_result (w_ct W) op item tb = Some t ->
+  exists lam ev, stream_op W op G0 item (Lambda [p] b) = Ok (lam, t, ev).
+Proof.
+  intros Hw Hc Hr. destruct (follow_types_agree_x W _ _ _ Hw) as (b' & ev & Hf).
+  cbn [stream_op]. rewrite Hf. cbn [bind]. unfold finish_op.
+  assert (Ho : out_of W ((p, item) :: G0) b = b') by (unfold out_of; rewrite Hf; reflexivity).
+  rewrite Ho in Hc. rewrite Hc. cbn [negb].
+  destruct op; cbn in Hr; try discriminate.
+  - inversion Hr; subst. eauto.
+  - inversion Hr; subst. eauto.
+  - destruct tb; try discriminate. inversion Hr; subst. cbn. eauto.
+Qed.
+
+Lemma map_const_inj ns ns' :
+  map (fun n => Const (CStr n)) ns = map (fun n => Const (CStr n)) ns' -> ns = ns'.
+Proof.
+  revert ns'. induction ns as [|n r IH]; intros [|n' r'] H; cbn in H; try discriminate; [reflexivity|].
+  inversion H; subst. f_equal. auto.
+Qed.
+
+Ltac ihs :=
+  repeat match goal with
+         | IH : forall t', wt _ ?G ?e t' -> _ = t', H : wt _ ?G ?e _ |- _ => pose proof (IH _ H); clear H
+         | IH : forall ts', wts _ ?G ?es ts' -> _ = ts', H : wts _ ?G ?es _ |- _ => pose proof (IH _ H); clear H
+         end; subst.
+
+Theorem wt_det W :
+  (forall G e t, wt W G e t -> forall t', wt W G e t' -> t = t') /\
+  (forall G es ts, wts W G es ts -> forall ts', wts W G es ts' -> ts = ts').
+Proof.
+  apply wt_wts_ind.
+  - intros G x t H t' H'. inversion H'; subst. congruence.
+  - intros G c t' H'. inversion H'; subst. reflexivity.
+  - intros G l ops rs tl ts _ _ _ _ t' H'. inversion H'; subst. reflexivity.
+  - intros G o es ts _ _ t' H'. inversion H'; subst. reflexivity.
+  - intros G o l r tl tr _ IHl _ IHr _ _ t' H'. inversion H'; subst. ihs. reflexivity.
+  - intros G o x t _ IH t' H'. inversion H'; subst. ihs. reflexivity.
+  - intros G c x y tc t _ _ _ IHx _ IHy _ t' H'. inversion H'; subst; ihs; [reflexivity | congruence].
+  - intros G c x y tc tx ty' _ _ _ IHx _ IHy _ _ Hne t' H'. inversion H'; subst; ihs; [congruence | reflexivity].
+  - intros G v s tv ts _ IHv _ _ Ht _ t' H'. inversion H'; subst; ihs; [reflexivity | discriminate].
+  - intros G es ts i t _ IH Hn t' H'. inversion H'; subst; [discriminate|].
+    match goal with E : Z.of_nat _ = Z.of_nat _ |- _ => apply Nat2Z.inj in E; subst end. ihs. congruence.
+  - intros G ns vs ts a t _ IH Ha t' H'. inversion H'; subst; [|discriminate].
+    match goal with E : map _ _ = map _ _ |- _ => apply map_const_inj in E; subst end. ihs. congruence.
+  - intros G v tv a ns ts t _ IHv Hd Hr Ha t' H'. inversion H'; subst; [discriminate|]. ihs. congruence.
+  - intros G x fn args kwn kwv ts tk Hf _ _ _ _ _ _ t' H'. inversion H'; subst.
+    match goal with E : find_func _ x = Some ?f0 |- _ => rewrite Hf in E; inversion E; subst end. reflexivity.
+  - (* method *)
+    intros G v a args kwn kwv tv ts tk mcls m t _ IHv _ _ _ _ _ Hm Hr _ _ t' H'. inversion H'; subst; ihs; congruence.
+  - (* collection method *)
+    intros G v a args kwn kwv tv ts tk c mcls m t _ IHv _ Hwa _ _ _ Hit Hn Hfc Hr _ _ t' H'.
+    inversion H'; subst; try (ihs; congruence).
+    exfalso. match goal with Hw : wts W G [Lambda _ _] _ |- _ => inversion Hw as [|? ? ? ? ? Hl _]; inversion Hl end.
+  - (* operator *)
+    intros G v a p b tv tb c mcls m t _ IHv _ Hit Hn Hfc _ _ _ _ IHb _ Hres t' H'.
+    inversion H'; subst.
+    + ihs. congruence.
+    + exfalso. match goal with Hw : wts W G [Lambda _ _] _ |- _ => inversion Hw as [|? ? ? ? ? Hl _]; inversion Hl end.
+    + match goal with Hv2 : wt W G v _ |- _ => pose proof (IHv _ Hv2); clear Hv2; subst end.
+      ihs. congruence.
+  - intros G ts' H'. inversion H'; reflexivity.
+  - intros G e es t ts _ IHe _ IHes ts' H'. inversion H'; subst. ihs. reflexivity.
+Qed.
+
+Theorem wt_deterministic_x W G e t t' : wt W G e t -> wt W G e t' -> t = t'.
+Proof. intros H H'. exact (proj1 (wt_det W) G e t H t' H'). Qed.
